@@ -152,7 +152,13 @@ func (m *maxDifferenceWatermarkGenerator) Run(ctx execution.ExecutionContext, pr
 			}
 		}
 
-		curTimeValueRoundedDown := time.Unix(0, record.Values[m.timeFieldIndex].Time.UnixNano()/int64(resolution.Duration)*int64(resolution.Duration))
+		timeNanos := record.Values[m.timeFieldIndex].Time.UnixNano()
+		roundedNanos := timeNanos / int64(resolution.Duration) * int64(resolution.Duration)
+		if roundedNanos > timeNanos {
+			// Integer division truncates toward zero, which rounds times before 1970 up.
+			roundedNanos -= int64(resolution.Duration)
+		}
+		curTimeValueRoundedDown := time.Unix(0, roundedNanos)
 
 		if curTimeValueRoundedDown.After(maxValue) {
 			maxValue = curTimeValueRoundedDown
